@@ -120,13 +120,14 @@ type ipTerm struct {
 }
 
 type exampleParser struct {
-	name   string
-	parse  func(filename, in string, opts ...participle.ParseOption) (any, error)
-	lex    func(in string) ([]lexer.Token, error)
-	valid  []string
-	str    func() string      // Parser.String()
-	nested func(n int) string // nesting depth n
-	flat   func(n int) string // n items, no nesting
+	name     string
+	parse    func(filename, in string, opts ...participle.ParseOption) (any, error)
+	lex      func(in string) ([]lexer.Token, error)
+	valid    []string
+	str      func() string // Parser.String()
+	parseRaw func(in string) (any, error)
+	nested   func(n int) string // nesting depth n
+	flat     func(n int) string // n items, no nesting
 }
 
 func mkExample[T any](name string, valid []string, nested, flat func(int) string, opts ...participle.Option) *exampleParser {
@@ -137,9 +138,10 @@ func mkExample[T any](name string, valid []string, nested, flat func(int) string
 			v, err := p.ParseString(fn, in, po...)
 			return v, err
 		},
-		lex:   func(in string) ([]lexer.Token, error) { return p.Lex("fn", strings.NewReader(in)) },
-		str:   func() string { return p.String() },
-		valid: valid, nested: nested, flat: flat,
+		lex:      func(in string) ([]lexer.Token, error) { return p.Lex("fn", strings.NewReader(in)) },
+		str:      func() string { return p.String() },
+		parseRaw: func(in string) (any, error) { v, err := p.ParseString("", in); return v, err },
+		valid:    valid, nested: nested, flat: flat,
 	}
 }
 
